@@ -115,8 +115,52 @@ fn node_path() -> String {
   std::env::var("VERIF_NODE").unwrap_or_else(|_| "node".into())
 }
 
+/// How long an emitted program may run (real time). The reference programs finish in well under a
+/// second; a miscompiled one may loop for ever (seen with seeded change C12-i), and "does not
+/// terminate" has to be an observation, not a hang of the check.
+fn node_timeout() -> std::time::Duration {
+  std::time::Duration::from_secs(std::env::var("VERIF_NODE_TIMEOUT").ok().and_then(|s| s.parse().ok()).unwrap_or(90))
+}
+
+fn run_node_with_timeout(dir: &std::path::Path, args: &[&str]) -> std::io::Result<std::process::Output> {
+  use std::process::Stdio;
+  let out_path = dir.join(".node.stdout");
+  let err_path = dir.join(".node.stderr");
+  let mut child = std::process::Command::new(node_path())
+    .args(args)
+    .current_dir(dir)
+    .stdin(Stdio::null())
+    .stdout(std::fs::File::create(&out_path)?)
+    .stderr(std::fs::File::create(&err_path)?)
+    .spawn()?;
+  let started = std::time::Instant::now();
+  let status = loop {
+    if let Some(st) = child.try_wait()? {
+      break Some(st);
+    }
+    if started.elapsed() > node_timeout() {
+      let _ = child.kill();
+      let _ = child.wait();
+      break None;
+    }
+    std::thread::sleep(std::time::Duration::from_millis(if started.elapsed().as_millis() < 200 { 2 } else { 20 }));
+  };
+  let stdout = std::fs::read(&out_path).unwrap_or_default();
+  let mut stderr = std::fs::read(&err_path).unwrap_or_default();
+  let _ = std::fs::remove_file(&out_path);
+  let _ = std::fs::remove_file(&err_path);
+  match status {
+    Some(st) => Ok(std::process::Output { status: st, stdout, stderr }),
+    None => {
+      use std::os::unix::process::ExitStatusExt;
+      stderr = b"the program did not terminate within the time limit".to_vec();
+      Ok(std::process::Output { status: std::process::ExitStatus::from_raw(124 << 8), stdout: Vec::new(), stderr })
+    }
+  }
+}
+
 fn run_node(dir: &std::path::Path, args: &[&str]) -> NodeRun {
-  let out = std::process::Command::new(node_path()).args(args).current_dir(dir).output();
+  let out = run_node_with_timeout(dir, args);
   match out {
     Ok(o) => NodeRun {
       stdout: String::from_utf8_lossy(&o.stdout).to_string(),
